@@ -24,6 +24,8 @@ Variable P : list dom.      (* index channel domains *)
 Variable D : list dom.      (* this channel's domains *)
 Variable var : bool.        (* variable-length data type *)
 Variable chunk : Z.         (* AutoChunkSize after Override (0 -> 1e5 is done by the caller) *)
+Variable legacy : bool.     (* true: the stepping code of the pinned upstream tree, before the fix in /repo
+                               (internal iterator not repositioned, chunk loops of autoNext/autoPrev) *)
 
 Definition AUTO : Z := -1.
 
@@ -256,15 +258,69 @@ Definition auto_prev (i : uiter) : uiter :=
         auto_prev_loop (2 * S (length D)) i (s_exact sa) chunk
   end.
 
-Definition u_next (i : uiter) (span : Z) : uiter :=
+Definition u_next_legacy (i : uiter) (span : Z) : uiter :=
   if at_end i then u_reset i (point (t_e (u_b i)))
   else if span =? AUTO then auto_next i
   else next_span i span.
 
-Definition u_prev (i : uiter) (span : Z) : uiter :=
+Definition u_prev_legacy (i : uiter) (span : Z) : uiter :=
   if at_start i then u_reset i (point (t_s (u_b i)))
   else if span =? AUTO then auto_prev i
   else prev_span i span.
+
+(* ---- the stepping code of /repo (after the fix): every step positions the internal
+   iterator from its view; an AutoSpan step only resolves its span through the index and is
+   then sliced like any other step ---- *)
+Definition step_fwd (i : uiter) (span : Z) : uiter :=
+  let i := u_reset i (bound_by (span_range (t_e (u_view i)) span) (u_b i)) in
+  if tspan (u_view i) =? 0 then i else
+  let '(d, ok) := di_seek_ge D (u_di i) (t_s (u_view i)) in
+  let i := u_set_di i d in
+  if negb ok then i else
+  if t_e (u_view i) <=? t_s (cur_tr i) then i else
+  let '(i, _) := accumulate i in
+  if satisfied i || match u_err i with Some _ => true | None => false end then i
+  else acc_loop true (S (length D)) i.
+
+Definition step_bwd (i : uiter) (span : Z) : uiter :=
+  let i := u_reset i (bound_by (span_range (t_s (u_view i)) (-1 * span)) (u_b i)) in
+  if tspan (u_view i) =? 0 then i else
+  let '(d, ok) := di_seek_le D (u_di i) (t_e (u_view i) - 1) in
+  let i := u_set_di i d in
+  if negb ok then i else
+  if t_e (cur_tr i) <=? t_s (u_view i) then i else
+  let '(i, _) := accumulate i in
+  if satisfied i || match u_err i with Some _ => true | None => false end then i
+  else acc_loop false (S (length D)) i.
+
+(* autoNextSpan / autoPrevSpan: the span, or the iterator carrying the Stamp error *)
+Definition auto_next_span (i : uiter) : uiter + Z :=
+  match stamp P (t_e (u_view i)) chunk false with
+  | Err e => inl (u_set_err (u_reset i (point (t_e (u_view i)))) e)
+  | Ok a => inr (Z.max (s_lo a - t_e (u_view i)) 0)
+  end.
+Definition auto_prev_span (i : uiter) : uiter + Z :=
+  match stamp P (t_s (u_view i)) (- chunk) false with
+  | Err e => inl (u_set_err (u_reset i (point (t_s (u_view i)))) e)
+  | Ok a => inr (Z.max (t_s (u_view i) - (s_lo a + 1)) 0)
+  end.
+
+Definition u_next_fix (i : uiter) (span : Z) : uiter :=
+  if at_end i then u_reset i (point (t_e (u_b i)))
+  else if span =? AUTO then
+    match auto_next_span i with inl i' => i' | inr sp => step_fwd i sp end
+  else step_fwd i span.
+
+Definition u_prev_fix (i : uiter) (span : Z) : uiter :=
+  if at_start i then u_reset i (point (t_s (u_b i)))
+  else if span =? AUTO then
+    match auto_prev_span i with inl i' => i' | inr sp => step_bwd i sp end
+  else step_bwd i span.
+
+Definition u_next (i : uiter) (span : Z) : uiter :=
+  if legacy then u_next_legacy i span else u_next_fix i span.
+Definition u_prev (i : uiter) (span : Z) : uiter :=
+  if legacy then u_prev_legacy i span else u_prev_fix i span.
 
 (* ---- commands ---- *)
 Inductive cmd :=
